@@ -201,6 +201,17 @@ def final_check(name: str, obs: Observer):
 
 def _name_class(obs: Observer, default: str, job: Optional[Tuple[int, int]] = None) -> str:
     v = obs.cur
+    if job is not None and job in v.jobs and obs.prev is not None:
+        # the current op is the (late) commit of the offending job's own update and that commit visibly reset a job of the update that
+        # had already run: commit_batch_update of a non-first update rewrites state / n_pending_parents of EVERY job of the update from the
+        # parents' states, also of jobs that were activated and ran while the update was uncommitted
+        ws = obs.op.split()
+        if ws[0] == 'commit' and obs.ans == 'ok 0' and (int(ws[1]), int(ws[2])) == (job[0], v.jobs[job]['update_id']) and int(ws[2]) != 1:
+            for k2, o in obs.prev.jobs.items():
+                j2 = v.jobs.get(k2)
+                if j2 is not None and k2[0] == job[0] and o['update_id'] == int(ws[2]) and \
+                        o['state'] in TERMINAL + ('Running', 'Creating') and j2['state'] in ('Ready', 'Pending'):
+                    return 'commit-resets-job-of-late-committed-update'
     if job is not None and job in v.jobs:
         # the offending job itself has a parent whose row arrived after the job's update was committed: that mechanism explains it,
         # whatever else happened in the history
@@ -753,10 +764,18 @@ def c08(obs: Observer):
     ws = obs.op.split()
     if ws[0] == 'insertJobs':
         new = [j for k, j in v.jobs.items() if k not in p.jobs]
+        if obs.case.get('adv') and obs.op not in [h[0] for h in obs.history[:-1]]:
+            obs.tag('adv:' + obs.case['adv'])
         if obs.ans == 'err':
             t = obs.unchanged()
             if t is not None:
                 return ('rejected-submission-changed-state', f'a rejected insertJobs changed table {t}')
+            reason = str(getattr(obs.w.last_error, 'reason', '') or '')
+            for needle, tag in (('is not in the range', 'rejected:job-id-outside-reserved-range'),
+                                ('invalid in-update parent id', 'rejected:in-update-parent-not-earlier'),
+                                ('has invalid parent id', 'rejected:absolute-parent-not-earlier')):
+                if needle in reason:
+                    obs.tag(tag)
         if new:
             obs.tag('bunch-accepted')
         for j in new:
@@ -765,13 +784,25 @@ def c08(obs: Observer):
             if u is None or not (u['start_job_id'] <= j['job_id'] < u['start_job_id'] + u['n_jobs']):
                 return ('accepted-job-id-outside-update-range', f'job {j["job_id"]} accepted into update {j["update_id"]} whose range is '
                                                                 f'[{u["start_job_id"]}, {u["start_job_id"] + u["n_jobs"]})' if u else 'no update')
+            reserved = [(x['update_id'], x['start_job_id'], x['start_job_id'] + x['n_jobs']) for k2, x in v.updates.items() if k2[0] == b]
             for par in v.parents.get((b, j['job_id']), []):
                 if par == j['job_id']:
                     return ('accepted-self-parent', f'job {j["job_id"]} accepted with itself as parent')
-                if (b, par) not in v.jobs:
-                    return ('accepted-missing-parent', f'job {j["job_id"]} accepted with parent {par} which does not exist')
                 if par > j['job_id']:
                     return ('accepted-later-parent', f'job {j["job_id"]} accepted with later parent {par}')
+                owner = [uid for uid, lo, hi in reserved if lo <= par < hi]
+                if par < 1 or not owner:
+                    return ('accepted-missing-parent', f'job {j["job_id"]} accepted with parent {par}, an id no update of the batch has reserved')
+                if (b, par) not in v.jobs:
+                    # the id is an earlier, reserved one; the row is not there (yet).  Same update: another bunch of the update, sent
+                    # concurrently by the real client — the update cannot be committed before that bunch arrives (count check), not a
+                    # violation.  Earlier update: that update's bunch was never inserted — the out-of-order family.
+                    if owner[0] == j['update_id']:
+                        obs.tag('parent-in-bunch-not-yet-inserted')
+                    else:
+                        return ('accepted-parent-in-uninserted-earlier-update',
+                                f'job {j["job_id"]} of update {j["update_id"]} accepted with parent {par}: an id reserved by update {owner[0]}, '
+                                f'whose job row does not exist')
     if ws[0] == 'insertGroups' and obs.ans == 'err':
         t = obs.unchanged()
         if t is not None:
